@@ -146,6 +146,15 @@ def generate(rng, tier):
         fc = sorted([rng.uniform(0.05, 0.5), rng.uniform(0.5, 0.9)]) if typ in ("bp", "br") else rng.uniform(0.05, 0.9)
         tail.append({"op": "filter", "typ": typ, "fc": fc})
         ops = ops[:max(0, len(ops) - 2)] + tail
+    elif rng.random() < 0.1 and not big_tail:
+        # another everyday sequence that random histories seldom produce in this order: drop the calibration,
+        # crop to the valid box (off-centre for ragged borders), recentre - then whatever follows, and the
+        # sibling instance of the original shape that is re-calibrated at the end
+        tail = [{"op": "strip_latcal"}, {"op": "crop"}, {"op": "recenter"}]
+        pos = rng.randint(0, len(ops))
+        ops = ops[:pos] + tail + ops[pos:]
+        if rng.random() < 0.6:
+            init["nan"]["kind"] = "ragged"
     return {"prop": PROP, "tier": tier, "config": cfg, "init": init, "ops": ops}
 
 
